@@ -27,3 +27,10 @@ func init() {
 		Assume: []string{"executor-level rollback (rollbackBlocks) is covered by the replica workload of C12b/C09", "model/kv.go is the specification"},
 		RacePkgs: ledgerPkgs, MinStats: map[string]int64{"rollbacks": 100, "reexecuted_blocks": 20}}
 }
+
+func init() {
+	specs["C10"] = spec{Prop: "C10", Workload: "root10", Race: true, Level: "exploration", Quick: 60, Thorough: 1500, PerBatch: 4, Watchdog: 10 * time.Minute,
+		Rule: "each case = a committed base state (2-3 blocks, 3 accounts + 1 brand-new one) and a generated write set W of 3-8 entries that differ from it (storage values incl. deletes, balance, nonce, code); W is realised on 6 forks by different histories (permuted order, split into txs, redundant intermediate writes, interleaved reads, reverted snapshots with unrelated storage / account-field writes, written-then-restored storage / account fields, AddState of an unchanged value) x (warm cache | reopened | cache capacity 1-2) and every fork's FlushDirtyData root must equal the plain in-order one; then every single-field perturbation of W (one value/balance/nonce/code changed, one entry dropped, one delete dropped, one key added, one key added on a new account) must change the root; distinct by (|W|, set of history styles used)",
+		Assume: []string{"sha256 collisions and the ambiguity of un-length-prefixed concatenation (needs two coordinated field changes) are outside 'single-field'", "empty values are left to C13", "transaction/receipt roots are checked by the independent recomputation in the C09 audit, which the block-level part of this check reuses"},
+		RacePkgs: ledgerPkgs, MinStats: map[string]int64{"forks": 100, "perturbations": 200}}
+}
